@@ -54,14 +54,25 @@ def check(ctx):
         'proximals of lam*||x-g||^2 and its conjugate satisfy the same.  '
         'R3: each functional is bound to the proximal factory of its own '
         'family (frozen table).  R4: every attribute read by a proximal '
-        '_call is defined (E12).',
+        '_call is defined (E12).  R5: every value parameter of the '
+        'functional reaches its proximal.  R6: concrete proximals at '
+        'designated points satisfy the first-order optimality condition '
+        '(symbolic differentiation of the functional\'s own value, '
+        'sub-gradient intervals at kinks, normal cones of constraint '
+        'sets).  R6d: f(p) is finite and t -> f(p + t d) + ||p + t d - '
+        'x||^2 / (2 sigma) has a non-negative one-sided slope at t = 0+ '
+        'along every ray d of a finite family (+-e_j, +-e_j +-e_k, +-(x - '
+        'p)), the slope obtained by jet expansion of the interpreted '
+        '_call; 2x2 SVD, sort, cumsum, einsum modelled exactly.',
         ['CPython ast', 'closed-form proximal of a convex quadratic on the '
          'weighted line', 'operator arithmetic means what the table says '
-         '(C04)'],
-        ['optimality of the non-smooth closed forms (soft thresholding, '
-         'projections, Lambert-W, simplex sort)', 'weight consistency of '
-         'thresholds for non-quadratic functionals (R5) and the Huber '
-         'proximal on product spaces (R6) are not armed in this version'])
+         '(C04)', 'NumPy primitives mean what the array model says',
+         'convexity of the functionals (a non-descending ray family is '
+         'necessary for optimality; sufficiency is not claimed)'],
+        ['optimality at points other than the designated ones and along '
+         'rays outside the finite family', 'proximals through the Lambert '
+         'W function', 'SVD beyond stacks of real 2x2 matrices',
+         'weightings other than the symbolic / numeric ones instantiated'])
     model = Model(ctx)
     n = 0
     for name, (builder, aspects) in instances().items():
